@@ -472,6 +472,10 @@ func c18Sched(s c05Scenario, res *UnitResult) {
 		// the implementation spawns one goroutine per subscriber in Go map iteration order, which the harness cannot own
 		res.Capped = "scenario " + s.Name + ": schedule replay diverged (uncontrolled map iteration order): " + r.Diverged
 	}
+	if r.Stuck {
+		res.Capped = "scenario " + s.Name + ": a thread blocked in a construct the scheduler does not own (engine limitation, scenario abandoned)"
+		return
+	}
 	if r.Capped {
 		res.Capped = "execution cap reached in " + s.Name
 	}
